@@ -13,13 +13,15 @@ confirmed with a demonstration test).  For every seeded change of the property b
 Nothing is written to /repo; the scratch directory is removed afterwards.  A seeded change that no longer applies to the
 current tree is skipped (recorded).  A change that applies but is no longer detected is reported as SENSITIVITY-LOST on stderr
 and in the evidence file: it means the checker lost power, not that the property is violated, so it does not produce a
-VIOLATION line."""
+VIOLATION line.  The replay stops starting new seeds after VERIF_SENS_BUDGET_S seconds (default 1800) and records the rest
+as skipped."""
 import glob
 import json
 import os
 import shutil
 import subprocess
 import tempfile
+import time
 
 from . import facts
 
@@ -38,8 +40,13 @@ def replay(ctx):
         src_target = os.path.join(facts.CACHE, "target")
         if os.path.isdir(src_target):
             subprocess.run(["cp", "-a", "--reflink=auto", src_target, os.path.join(cache, "target")], check=False)
+        t0 = time.time()
+        budget = float(os.environ.get("VERIF_SENS_BUDGET_S", "1800"))
         for patch in seeds:
             name = os.path.basename(os.path.dirname(patch))
+            if time.time() - t0 > budget:
+                res["skipped"].append({"seed": name, "why": "replay time budget (VERIF_SENS_BUDGET_S=%d) used up" % budget})
+                continue
             repo = os.path.join(scratch, "repo")
             # no -t: a file restored to its original content must get a fresh mtime, or cargo keeps the unit built from the
             # previous seed's patched source (and its facts)
